@@ -181,16 +181,17 @@ Section Eval.
           end
       end.
 
-    (* `bindings.insert(ident, val)` after naming a lambda value *)
-    Definition bind_value (c1 : cfg) (x : string) (v : value) : result :=
+    (* `bindings.insert(ident, val)` after naming a lambda value that the assignment created
+       ([n0] = `cells_before`: the number of cells before the value expression was evaluated) *)
+    Definition bind_value (n0 : nat) (c1 : cfg) (x : string) (v : value) : result :=
       match insert_head (snd c1) x v with
-      | Some fr2 => (Ok v, (name_if_lambda (fst c1) v x, fr2))
-      | None => (Panic, (name_if_lambda (fst c1) v x, snd c1))
+      | Some fr2 => (Ok v, (name_if_created n0 (fst c1) v x, fr2))
+      | None => (Panic, (name_if_created n0 (fst c1) v x, snd c1))
       end.
     (* do-block statement path: no immutability check (shadowing allowed) *)
     Definition assign_value (c : cfg) (x : string) (ve : expr) : result :=
       match ev c ve with
-      | (Ok v, c1) => bind_value c1 x v
+      | (Ok v, c1) => bind_value (Datatypes.length (fst c)) c1 x v
       | (o, c1) => (o, c1)
       end.
     (* Expr::Assignment path after the three guards: the value expression may itself have
@@ -198,7 +199,7 @@ Section Eval.
        (repo fix commit; before it the second binding silently replaced the first) *)
     Definition assign_checked (c : cfg) (x : string) (ve : expr) : result :=
       match ev c ve with
-      | (Ok v, c1) => if contains (snd c1) x then (Err, c1) else bind_value c1 x v
+      | (Ok v, c1) => if contains (snd c1) x then (Err, c1) else bind_value (Datatypes.length (fst c)) c1 x v
       | (o, c1) => (o, c1)
       end.
 
